@@ -140,6 +140,9 @@ def build_tree():
     f("root/clean/g.csv")
     f("root/clean/h.csv", "***include;\n../a.csv\n\n")
     f("root2/e.csv")                                         # sibling whose name extends the root's name
+    f("secret_top.csv")                                      # a file directly in the parent of the roots
+    f("croot/m.csv")                                         # a second, symlink-free root (its folder listing completes)
+    f("croot/sub/n.csv")
     f("outside/secret.csv")
     f("outside/more/f.csv")
     f("outside/inc_out.csv", "***include;\nsecret.csv\n\n")
@@ -647,7 +650,18 @@ def _function_cases(rng, T, seed, fs, n, ops, pend, out, model_ok):
 
 
 PLACEMENTS = ["root_item", "root_item", "include_root", "include_root", "include_nested", "include_nested",
-              "include_via_link", "default_roots"]
+              "include_via_link", "default_roots", "folder_then_include", "folder_then_include", "folder_then_item",
+              "include_root_folder_then_hostile"]
+
+# specifications aimed at entries directly in the PARENT of the root folder (file and folder), and deeper ones;
+# `$T` is replaced by the scratch directory.  Relative forms are for a file at the top level of the root.
+PARENT_TARGETS_ROOTED = ["/../secret_top.csv", "FILE:/../secret_top.csv", "\\../secret_top.csv", "/./../secret_top.csv",
+                         "/..//secret_top.csv", "/../outside", "/../outside/", "file:/../outside", "/../root2",
+                         "/../root2/e.csv", "/../outside/secret.csv", "/sub/../../secret_top.csv", "/$T/secret_top.csv",
+                         "/$T/outside", "/../croot/../secret_top.csv", "/../rootlink", "/../root", "/../root/a.csv"]
+PARENT_TARGETS_RELATIVE = ["../secret_top.csv", "file:../secret_top.csv", "..//secret_top.csv", "./../secret_top.csv",
+                           "../outside", "../outside/", "../root2", "sub/../../secret_top.csv", "../outside/secret.csv",
+                           "../root2/e.csv", "../croot/../outside", "../root/a.csv"]
 
 
 def _api_cases(rng, T, tables, seed, fs, n, ops, pend, out, model_ok):
@@ -659,10 +673,44 @@ def _api_cases(rng, T, tables, seed, fs, n, ops, pend, out, model_ok):
         if idx == 0:
             placement = "witness"
         raising = rng.random() < 0.2
+        root = T + ("/croot" if placement in ("folder_then_include", "folder_then_item",
+                                              "include_root_folder_then_hostile") else "/root")
+        if placement in ("folder_then_include", "include_root_folder_then_hostile"):
+            # these runs load some file twice (as listed child and as item): a raising tracker would stop at the
+            # duplicate report before the planted specification is reached
+            raising = False
         root_arg = root if rng.random() < 0.6 else Path(root)
         created = []
         try:
-            if placement == "root_item":
+            if placement in ("folder_then_include", "include_root_folder_then_hostile"):
+                # state carried across the items of ONE load: the root folder itself is an item first, a hostile
+                # specification aimed at the root's parent comes later, from a file at the top level of the root
+                spec = rng.choice(PARENT_TARGETS_ROOTED + PARENT_TARGETS_RELATIVE).replace("$T", T)
+                tags = ["parent-target", "has:.."]
+                inc = os.path.join(root, f"inc{idx}.csv")
+                benign = rng.choice(["m.csv", "/sub/n.csv", "/sub", "sub"])
+                if placement == "folder_then_include":
+                    lines = rng.choice([[spec], [benign, spec], [spec, benign]])
+                    roots = rng.choice([None, ["/"], ["/."], ["\\"], ["file:/"], ["/sub", "/"], ["/", "/sub"]])
+                else:
+                    # the including file is the root item; its last include line (processed first) is the root folder
+                    lines = [spec, rng.choice(["/", ".", "/sub/..", "\\"])]
+                    roots = [f"/inc{idx}.csv"]
+                with open(inc, "w") as fh:
+                    fh.write(_table(f"t_inc{idx}") + "***include;\n" + "\n".join(lines) + "\n\n")
+                created.append(inc)
+                planted_src = root
+                if spec not in include_lines(inc):
+                    out.count("api:not-plantable")
+                    planted_src = "unplantable"
+            elif placement == "folder_then_item":
+                # two root items: a folder is processed first (it is LAST in the list: pop() takes from the end),
+                # then a specification aimed at that folder's parent
+                spec = rng.choice(PARENT_TARGETS_ROOTED).replace("$T", T)
+                tags = ["parent-target", "has:.."]
+                roots = [spec, rng.choice(["/", "/", "/.", "/sub", "/sub/..", "file:/"])]
+                planted_src = None
+            elif placement == "root_item":
                 spec, tags = gen_spec(rng, T, None)
                 roots = [spec] if rng.random() < 0.7 else ["/a.csv", spec]
                 planted_src = None
